@@ -587,6 +587,8 @@ class Hypergraph:
 
         """
         members = set(members)
+        if None in members:
+            raise XGIError("None cannot be a node")
 
         if idx in self._edge.keys():  # check that uid is not present yet
             warn(f"uid {idx} already exists, cannot add edge {members}")
@@ -714,7 +716,11 @@ class Hypergraph:
                     warn(f"uid {idx} already exists, cannot add edge {members}.")
                     continue
                 try:
-                    self._edge[idx] = set(members)
+                    members = list(members)
+                    edge = set(members)
+                    if None in edge:
+                        raise XGIError("None cannot be a node")
+                    self._edge[idx] = edge
                 except TypeError as e:
                     raise XGIError("Invalid ebunch format") from e
                 for n in members:
@@ -774,7 +780,11 @@ class Hypergraph:
                 warn(f"uid {idx} already exists, cannot add edge {members}.")
             else:
                 try:
-                    self._edge[idx] = set(members)
+                    members = list(members)
+                    edge = set(members)
+                    if None in edge:
+                        raise XGIError("None cannot be a node")
+                    self._edge[idx] = edge
                 except TypeError as e:
                     raise XGIError("Invalid ebunch format") from e
 
